@@ -128,6 +128,8 @@ pub struct Shared {
     pub max_read_capacity_seen: usize,
     /// some scripted data chunk did not fit into the capacity offered by the caller and was delivered in pieces
     pub clipped: bool,
+    /// a read has returned end of stream: the peer is gone, so an unscripted shutdown fails with NotConnected (as a socket's does)
+    pub eof_seen: bool,
 }
 
 #[derive(Debug)]
@@ -169,7 +171,10 @@ impl AsyncRead for Transport {
                 }
                 Poll::Pending
             }
-            Some(Rev::Eof) => Poll::Ready(Ok(())),
+            Some(Rev::Eof) => {
+                s.eof_seen = true;
+                Poll::Ready(Ok(()))
+            }
             Some(Rev::Err(k)) => Poll::Ready(Err(io::Error::new(k, "scripted read error"))),
             Some(Rev::Repeat(d, left)) => {
                 // delivered whole or not at all in this poll; a chunk that does not fit is delivered in pieces like Data
@@ -251,6 +256,10 @@ impl AsyncWrite for Transport {
     fn poll_shutdown(self: Pin<&mut Self>, cx: &mut Context<'_>) -> Poll<io::Result<()>> {
         let mut s = self.0.lock().unwrap();
         match s.sq.pop_front() {
+            None if s.eof_seen => {
+                s.shutdowns += 1;
+                Poll::Ready(Err(io::Error::new(io::ErrorKind::NotConnected, "peer already gone")))
+            }
             None | Some(Fev::Ok) => {
                 s.shutdowns += 1;
                 Poll::Ready(Ok(()))
